@@ -4,6 +4,13 @@ import json, subprocess
 WSIM_NOTE = ("Trusted base: the simulator (sim/wsim: one-runner scheduler over real threads, virtual clock, I/O fault plane), "
   "the cfg-guarded hook layer in /repo/src/wal/verif (std-shaped wrappers; a missed acquisition would show as a watchdog/harness error, exit 2), "
   "the reference model in sim/wsim/src/oracle.rs, tmpfs semantics for completed syscalls. Seeded sampling, not a proof.")
+DSIM_NOTE = ("Trusted base: the tokio shim (sim/shims/tokio: single-threaded seeded executor, virtual time, in-memory sockets), the octopii stub (sim/shims/octopii: consensus oracle restricted to behaviour Raft allows, simulated RPC; real rpc/message.rs), bincode = serde_json, the wiring of start_node reproduced in sim/dsim/src/world.rs, engine background threads parked. No node crashes. Seeded sampling, not a proof.")
+dsim_checks = {
+ "C18": ("exploration", "Three replicas of the real Metadata state machine behind the consensus stub; racing proposers on all nodes issue duplicate/stale/unknown-topic commands and damaged encodings under proposal failure, leader change, apply lag and snapshot catch-up; the statement's invariants are evaluated on every replica after every apply and replicas are compared at the end. The simulation contributes the command sequences a cluster produces; it does not enumerate the bounded space (that would be model checking).", "§6 C18", "deterministic simulation: replicated state machine under a consensus stub, invariants after every apply"),
+ "C22": ("exploration", "1-3 nodes of the real data plane over the real engine, concurrent PUT/GET clients on arbitrary nodes, thresholds 1-4, monitor/lease timers on virtual time, consensus and RPC faults while the workload runs, then a fault-free drain; history oracle on executor step numbers (exactly-once, per-producer order, EMPTY only when drained).", "§6 C22", "deterministic simulation: seeded task schedules and faults, history checked for exactly-once ordered delivery"),
+ "C23": ("exploration", "Same runs as C22; every engine append is reported by the hook with the node label of the task performing it and checked at that instant against that node's applied metadata.", "§6 C23", "deterministic simulation: write events checked against the writer's applied metadata"),
+ "C24": ("exploration", "Byte streams of valid and malformed frames through the real listener/handle_connection over a simulated socket with seeded chunking; responses matched positionally against a reference framer; PUT/GET payload identity.", "§6 C24", "deterministic simulation: seeded byte streams and chunking vs reference framer"),
+}
 checks = {
  "C01": ("exploration", "Seeded operation sequences on the real engine under the simulator, compared op by op with a reference log+cursor model (both read APIs, all budgets, sizes 0..multi-block, both backends, both consistency modes, both geometries). Tests sample a handful of sequences; this samples thousands per minute with boundary-biased sizes and budgets.", "§4 C01", "deterministic simulation: seeded op sequences vs reference model"),
  "C02": ("exploration", "C01 workload plus peeks and offset-addressed reads, each peek paired with its consuming twin and bracketed by snapshots of the reclamation bookkeeping (hook accessor); any later read/count disagreement with the model is attributed to the non-consuming calls.", "§4 C02", "deterministic simulation: peek/consume twins, bookkeeping snapshots, reference model"),
@@ -27,7 +34,7 @@ na = [
  ("C19", "the mechanism is the vendored openraft core plus octopii node/network glue; neither compiles offline here (tokio, futures and eight more crates are absent) and a stand-in would test the stand-in (DESIGN §7)"),
  ("C25", "pure string codec (wal_key/parse_wal_key): nothing for a simulator to schedule or fault (DESIGN §7)"),
 ]
-pending = ["C18","C20","C21","C22","C23","C24"]
+pending = ["C20","C21"]
 for p in pending:
     na.append((p, "not claimed yet: its simulation profile is still being built (see DESIGN.md §0); no check is registered"))
 commits = subprocess.run(["git","-C","/repo","log","--format=%h %s","--grep=^verif hooks"],capture_output=True,text=True).stdout.strip().splitlines()
@@ -48,6 +55,20 @@ m = {
  "not_applicable": [{"property_id": p, "reason": r} for p, r in sorted(na)],
  "notes": "Exit codes: 0 held (or only KNOWN-FINDING lines), 1 with VIOLATION lines, 2 harness error. VERIF_SEED selects the seed (default 20260921), VERIF_BUDGET_S the search time, VERIF_WORKERS the parallelism. Known findings: known_findings.json. Replay: ./check replay <file>.",
 }
+m["engines"].append({"name": "dsim", "path": "sim/dsim", "serves_properties": sorted(dsim_checks.keys()), "kind_free_text": "deterministic simulation of the distributed-walrus data plane: real controller/bucket/monitor/client/metadata sources included by path over the real engine; tokio replaced by a single-threaded seeded executor with virtual time and in-memory sockets; octopii replaced by a consensus oracle with simulated RPC"})
+for pid in sorted(dsim_checks):
+    cat, text, ref, tech = dsim_checks[pid]
+    m["checks"].append({
+      "property_id": pid,
+      "quick_cmd": f"./check {pid} quick",
+      "thorough_cmd": f"./check {pid} thorough",
+      "evidence_file": f"/verif/evidence/{pid}.json",
+      "replay_cmd_template": "./check replay {path}",
+      "engine": "dsim",
+      "level_claimed": {"category": cat, "text": text, "design_ref": ref},
+      "level_note": DSIM_NOTE,
+      "technique": tech,
+    })
 for pid in sorted(checks):
     cat, text, ref, tech = checks[pid]
     m["checks"].append({
@@ -61,5 +82,6 @@ for pid in sorted(checks):
       "level_note": WSIM_NOTE,
       "technique": tech,
     })
+m["checks"].sort(key=lambda c: c["property_id"])
 json.dump(m, open("/verif/MANIFEST.json","w"), indent=1)
 print("checks:", len(m["checks"]), "n/a:", len(m["not_applicable"]))
